@@ -64,6 +64,10 @@ def field_spec(shape):
         return univ.SetOf(componentType=univ.Any())
     if shape == 'seqof-any':
         return univ.SequenceOf(componentType=univ.Any())
+    if shape == 'setof-any-implicit':
+        return univ.SetOf(componentType=univ.Any().subtype(implicitTag=t3))
+    if shape == 'seqof-any-explicit':
+        return univ.SequenceOf(componentType=univ.Any().subtype(explicitTag=t3))
     raise ValueError(shape)
 
 
@@ -79,7 +83,8 @@ def make_schema(container, gov, shape, default_map):
 def configs():
     for container in ('seq', 'set'):
         for gov in ('int', 'oid'):
-            for shape in ('any', 'any-implicit', 'any-explicit', 'setof-any', 'seqof-any'):
+            for shape in ('any', 'any-implicit', 'any-explicit', 'setof-any', 'seqof-any', 'setof-any-implicit',
+                          'seqof-any-explicit'):
                 for k, (IT, vals) in enumerate(INNER):
                     for iv in vals:
                         for mapped in (True, False):
@@ -127,7 +132,7 @@ def check(idx, cfg, R):
         val = schema.clone()
         val['id'] = govval
         inner_obj = B.build(IT, iv, B.to_spec(IT, cache=False))
-        if shape in ('setof-any', 'seqof-any'):
+        if shape.startswith(('setof-any', 'seqof-any')):
             val['blob'].append(inner_obj)
         else:
             val['blob'] = inner_obj
@@ -155,7 +160,7 @@ def check(idx, cfg, R):
         return
     try:
         blob = out.getComponentByName('blob', default=None, instantiate=False)
-        if shape in ('setof-any', 'seqof-any'):
+        if shape.startswith(('setof-any', 'seqof-any')):
             if blob is None or len(blob) != 1:
                 R.violation('field.count', rec, 'blob=%r' % (blob,), 'one member', 'decoder', feats, idx)
                 return
